@@ -276,6 +276,8 @@ class Listener:
                         lazymsg('refused connection from {name} due to the state machine', name=connection.name()),
                         'network',
                     )
+                    # the refusal is a generator writing the Cease NOTIFICATION and closing the connection: it has to run
+                    reactor.asynchronous.schedule(str(uuid.uuid1()), 'sending notification (6,7)', denied)
                     break
                 log.debug(lazymsg('accepted connection from {name}', name=connection.name()), 'network')
                 break
@@ -321,6 +323,7 @@ class Listener:
                         lazymsg('refused connection from {name} due to the state machine', name=connection.name()),
                         'network',
                     )
+                    reactor.asynchronous.schedule(str(uuid.uuid1()), 'sending notification (6,7)', denied)
                     return
 
                 reactor.register_peer(new_neighbor.name(), new_peer)
